@@ -34,6 +34,15 @@ class IntegerData(NumericData):
         if np.any(np.modf(values)[0] != 0):
             raise TypeError("Values cannot have decimal points.")
 
+        if values.size > 0 and (
+            np.min(values) < np.iinfo(np.int32).min
+            or np.max(values) > np.iinfo(np.int32).max
+        ):
+            raise ValueError(
+                "Values must be within the range of 32-bit integers "
+                f"[{np.iinfo(np.int32).min}, {np.iinfo(np.int32).max}]."
+            )
+
         return values.astype(np.int32)
 
     @classmethod
